@@ -27,8 +27,8 @@ PROP = dict(
           'for group) x 14 shapes, domain-restricted per codec); non-trivial '
           '= 0 < capacity < count; distinct by hash of (path, capacity, '
           'start, array contents)'),
-    quick=dict(configs=['asan', 'rel'], cases=2000000, maxlen=160),
-    thorough=dict(configs=['asan', 'rel'], cases=15000000, maxlen=240,
+    quick=dict(configs=['asan', 'rel', 'native'], cases=2000000, maxlen=160),
+    thorough=dict(configs=['asan', 'rel', 'native'], cases=15000000, maxlen=240,
                   fuzz_s=120, setmax=1 << 23),
     case_timeout=30,
     required_classes=[
